@@ -186,6 +186,24 @@ def costsTags (p : CostsParsed) : List String :=
    s!"years={years.length}", s!"peak={peak}", s!"carry={carryUsed}", s!"multi={multi}", s!"tie={tie}",
    s!"notes={if p.notes.length ≥ 4 then "4+" else toString p.notes.length}", s!"errsecs={p.errsecs}", s!"out={p.result}"]
 
+/-- executable `Costs.WF` (what `C17_ledger_rows_wf` proves of the model's ledger output), checked on the
+    rows the implementation's ledger handed to the report -/
+def wfRows (rows : List Row) : Option String :=
+  match rows.find? (fun r => (match r.post with | some p => decide (p < 0) | none => false) ||
+                             (match r.pre with | some p => decide (p < 0) | none => false)) with
+  | some r => some s!"negative cost base in row sec={r.sec} day={r.day}"
+  | none =>
+  match rows.find? (fun r => r.post.isSome && r.pre.isNone) with
+  | some r => some s!"post cost base without pre cost base in row sec={r.sec} day={r.day}"
+  | none =>
+    let rec go : List Row → Option String
+      | [] => none
+      | a :: rest =>
+        match rest.find? (fun b => a.sec == b.sec && decide (b.day < a.day)) with
+        | some b => some s!"rows of security {a.sec} out of date order: day {a.day} before day {b.day}"
+        | none => go rest
+    go (counted rows)
+
 def runCosts (c : Case) : Res :=
   match parseCosts c with
   | none => { verdict := "BADCASE", msg := "unparsable costs case" }
@@ -199,6 +217,8 @@ def runCosts (c : Case) : Res :=
       { verdict := "ok", tags := "skipped=err" :: tags }
     else if p.result ≠ "ok" then
       { verdict := "DIFF", tags := "dk=panic" :: tags, msg := s!"implementation: {p.result} {p.resultMsg}" }
+    else if let some e := wfRows p.rows then
+      { verdict := "DIFF", tags := "dk=wf" :: tags, msg := s!"ledger rows violate the report's precondition (C17_ledger_rows_wf): {e}" }
     else
       let orc := costsOracle p
       let diff := match calcTotalCosts yearOfJd p.rows id id with
